@@ -44,8 +44,7 @@ def gen(rng, tier):
     # records whose bytes end exactly on, just before and just after a 1012-byte payload boundary (the length prefix, the
     # record body or the terminator completing a block), alone and after a short first record
     ends = [k * B + d for k in (1, 2, 3) for d in (-6, -5, -4, -3, -2, -1, 0, 1, 2, 3, 4, 5)]
-    if tier == 'quick':
-        ends = rng.sample(ends, 14) + [2 * B, 2 * B - 4, B, B - 4]
+    # (all of them in the quick tier too: 36 small files)
     for e in ends:
         for first in (0, rng.choice([30, 200, 990])):
             n = e - 4 - (first + 4 if first else 0)
